@@ -94,6 +94,54 @@ fn countdown_of(n: i64) -> CountdownType {
     }
 }
 
+/// the value field `id` has in `Beatmap::default()` (and, for the colour lists, the crate's public
+/// default palette): an edit that sets a field back to a default is an edit like any other
+pub fn default_value(id: usize) -> Val {
+    let d = Beatmap::default();
+    match id {
+        0 => Val::Int(i64::from(d.format_version)),
+        1 => Val::Str(d.audio_file),
+        2 => Val::F64(d.audio_lead_in),
+        3 => Val::Int(i64::from(d.preview_time)),
+        4 => Val::F32(d.stack_leniency),
+        5 => Val::Int(d.mode as i64),
+        6 => Val::Bool(d.letterbox_in_breaks),
+        7 => Val::Bool(d.special_style),
+        8 => Val::Bool(d.widescreen_storyboard),
+        9 => Val::Bool(d.epilepsy_warning),
+        10 => Val::Bool(d.samples_match_playback_rate),
+        11 => Val::Int(d.countdown as i64),
+        12 => Val::Int(i64::from(d.countdown_offset)),
+        13 => Val::Ints(d.bookmarks),
+        14 => Val::F64(d.distance_spacing),
+        15 => Val::Int(i64::from(d.beat_divisor)),
+        16 => Val::Int(i64::from(d.grid_size)),
+        17 => Val::F64(d.timeline_zoom),
+        18 => Val::Str(d.title),
+        19 => Val::Str(d.title_unicode),
+        20 => Val::Str(d.artist),
+        21 => Val::Str(d.artist_unicode),
+        22 => Val::Str(d.creator),
+        23 => Val::Str(d.version),
+        24 => Val::Str(d.source),
+        25 => Val::Str(d.tags),
+        26 => Val::Int(i64::from(d.beatmap_id)),
+        27 => Val::Int(i64::from(d.beatmap_set_id)),
+        28 => Val::F32(d.hp_drain_rate),
+        29 => Val::F32(d.circle_size),
+        30 => Val::F32(d.overall_difficulty),
+        31 => Val::F32(d.approach_rate),
+        32 => Val::F64(d.slider_multiplier),
+        33 => Val::F64(d.slider_tick_rate),
+        34 => Val::Str(d.background_file),
+        35 => Val::Breaks(vec![]),
+        36 => Val::Combo(
+            rosu_map::section::colors::Colors::DEFAULT_COMBO_COLORS.iter().map(|c| [c.red(), c.green(), c.blue(), c.alpha()]).collect(),
+        ),
+        _ => Val::Custom(vec![]),
+    }
+}
+
 pub fn apply(m: &mut Beatmap, id: usize, v: &Val) {
     match (id, v) {
         (0, Val::Int(n)) => m.format_version = *n as i32,
@@ -595,6 +643,24 @@ pub fn generate(tier: &str, seed: u64, out: &mut Out) {
             }
         }
     }
+    // every field set (back) to its default value, and the default palette in part / reordered
+    for (b, o) in bases.iter().take(if tier == "thorough" { bases.len() } else { 12 }) {
+        for id in 0..FIELDS.len() {
+            out.count("edit.default_value");
+            oracle(b, id, &default_value(id), o, out);
+        }
+        if let Val::Combo(pal) = default_value(36) {
+            for k in 1..pal.len() {
+                oracle(b, 36, &Val::Combo(pal[..k].to_vec()), o, out);
+            }
+            let mut rev = pal.clone();
+            rev.reverse();
+            oracle(b, 36, &Val::Combo(rev), o, out);
+            let mut twice = pal.clone();
+            twice.extend(pal.iter().copied());
+            oracle(b, 36, &Val::Combo(twice), o, out);
+        }
+    }
     // exhaustive over the text table for the metadata / file-name fields on one map per mode
     for (b, o) in bases.iter().take(4) {
         for id in [1usize, 18, 19, 20, 21, 22, 23, 24, 25, 34] {
@@ -623,6 +689,11 @@ pub fn generate(tier: &str, seed: u64, out: &mut Out) {
     }
     // correspondence: representable and hostile values, slider-free files
     let per_case = if tier == "thorough" { 3 } else { 1 };
+    for (t, o) in slider_free.iter().take(6) {
+        for id in 0..FIELDS.len() {
+            edit_case(t, id, &default_value(id), o, out);
+        }
+    }
     for (t, o) in &slider_free {
         for id in 0..FIELDS.len() {
             for k in 0..per_case {
